@@ -326,6 +326,9 @@ def impl_run(case):
             else:
                 raise Infra("unknown op %r" % (op,))
             st["outs"] = outs
+            # while the redirector runs, every pipe of a live worker whose write end is still open is being watched
+            st["open_unwatched"] = [[pid_, ch_] for pid_, (_pr, ps_) in live.items() for ch_, p_ in ps_.items()
+                                    if p_.wfd is not None and red.running and p_.rfd not in loop.handlers]
             st["stale_stream"] = list(stale)
             del stale[:]
             st["records"] = [[w, dm.get("name"), dm.get("pid"), list(dm.get("data", b""))] for w, dm in records[nrec:]]
@@ -468,6 +471,9 @@ def oracle(case, obs):
                     fail("incomplete-at-eof", "stream %s incomplete at EOF" % (key,), j)
             if st["pre_avail"] == 0 and not st["writer_closed"] and not all(st["still_registered"]):
                 fail("unwatched-while-open", "handler removed although the writer is still open", j)
+        if st.get("open_unwatched"):
+            fail("open-pipe-not-watched", "the redirector is running but pipe %s of a live worker, still open for writing, "
+                 "has no handler: what the worker writes from now on is never delivered" % (st["open_unwatched"][0],), j)
         if st.get("stale_stream"):
             fail("delivered-to-replaced-stream", "output of worker %s went to a %s stream object that had been replaced"
                  % (st["stale_stream"][0][1], st["stale_stream"][0][0]), j)
